@@ -163,10 +163,14 @@ def Res.val? : Res → Option Int
   | .fix v => some v
   | .big v => some v
 
-/-- `system_calls.rs::random_integer` for two integer arguments. The three arms with at least one
-    arena integer are the same computation after `Integer::from(fixnum)`. -/
-def sysRandomInteger (s : Stream) (l u : Int) (fuel p : Nat) : Option (Res × Nat) :=
-  if isFix l && isFix u then
+/-- `system_calls.rs::random_integer` for two integer arguments. `lbig` / `ubig`: the argument is an
+    arena `Integer` (not a `Fixnum` cell). The arm is chosen by REPRESENTATION, not by value: an
+    arena integer may hold a small value (the literal `-36028797018963968`, results of bignum
+    arithmetic, an earlier bignum-arm result), and then the u128 sampler is used where two fixnums
+    of the same values use the u64 sampler. The three arms with at least one arena integer are the
+    same computation after `Integer::from(fixnum)`. -/
+def sysRandomInteger (s : Stream) (l u : Int) (lbig ubig : Bool) (fuel p : Nat) : Option (Res × Nat) :=
+  if !lbig && !ubig then
     if l ≥ u then some (.fail, p)
     else match genRangeI64 s l u fuel p with
       | none => none
@@ -182,10 +186,13 @@ def sysMaybe (s : Stream) (p : Nat) : Bool × Nat := (decide (w32 s p < 2 ^ 31),
 
 /-! ## library(random) -/
 
+/-- how an integer literal / a normalised integer is held: arena `Integer` iff outside the fixnum range. -/
+def normalBig (n : Int) : Bool := !isFix n
+
 /-- a Prolog argument as far as the library's checks can tell. `other` carries the term's text. -/
 inductive Arg where
   | var
-  | int (n : Int)
+  | int (n : Int) (big : Bool)      -- an integer; `big`: held in an arena `Integer`
   | other (text : String)
   deriving Repr, DecidableEq
 
@@ -202,16 +209,16 @@ inductive Out where
 /-- `random_integer(Lower, Upper, R)`. -/
 def randomInteger (s : Stream) (L U R : Arg) (fuel p : Nat) : Option (Out × Nat) :=
   match R with
-  | .int _ | .other _ => some (.fails, p)               -- var(R)
+  | .int _ _ | .other _ => some (.fails, p)             -- var(R)
   | .var =>
     match L, U with
     | .var, _ => some (.instErr "random_integer/3", p)
     | _, .var => some (.instErr "random_integer/3", p)
     | .other t, _ => some (.typeErrInt t "random_integer/3", p)
-    | .int _, .other t => some (.typeErrInt t "random_integer/3", p)
-    | .int l, .int u =>
+    | .int _ _, .other t => some (.typeErrInt t "random_integer/3", p)
+    | .int l lb, .int u ub =>
       if l < u then                                      -- Lower < Upper,
-        match sysRandomInteger s l u fuel p with
+        match sysRandomInteger s l u lb ub fuel p with
         | none => none
         | some (.fail, p') => some (.fails, p')
         | some (.fix v, p') => some (.int v, p')
@@ -226,9 +233,9 @@ def ratioBits (k : Nat) : Nat :=
 /-- `random(R) :- var(R), N is 2^50, '$random_integer'(0, N, K), R is K/N.` -/
 def random (s : Stream) (R : Arg) (fuel p : Nat) : Option (Out × Nat) :=
   match R with
-  | .int _ | .other _ => some (.fails, p)
+  | .int _ _ | .other _ => some (.fails, p)
   | .var =>
-    match sysRandomInteger s 0 1125899906842624 fuel p with
+    match sysRandomInteger s 0 1125899906842624 false false fuel p with
     | none => none
     | some (.fail, p') => some (.fails, p')
     | some (.fix v, p') => some (.float (ratioBits v.toNat), p')
@@ -342,10 +349,13 @@ def chachaBlock (key : Array UInt32) (ctr : Nat) : Array UInt32 :=
 def seedStream (seed : Nat) : Stream :=
   fun i => (chachaBlock (seedKey seed.toUInt64) (i / 16))[i % 16]!
 
-/-- the same stream with the first `nblocks` blocks precomputed (a cache, same values). -/
-def seedStreamCached (seed nblocks : Nat) : Stream :=
+/-- the first `nblocks` blocks of the stream of a seed (a cache for the driver). -/
+def streamCache (seed nblocks : Nat) : Array UInt32 :=
   let key := seedKey seed.toUInt64
-  let cache : Array UInt32 := (List.range nblocks).foldl (fun a b => a ++ chachaBlock key b) #[]
-  fun i => if i < cache.size then cache[i]! else (chachaBlock key (i / 16))[i % 16]!
+  (List.range nblocks).foldl (fun a b => a ++ chachaBlock key b) #[]
+
+/-- `seedStream seed` read through a precomputed prefix (same values). -/
+def cachedStream (seed : Nat) (cache : Array UInt32) : Stream :=
+  fun i => if i < cache.size then cache[i]! else seedStream seed i
 
 end Scryer.Random
